@@ -104,6 +104,13 @@ def plan_cases(tier, rng):
             plan = {r: 99 for r in reqs if r[0] in dead}
         elif mode < 0.9:
             plan = {r: rng.choice([1, 2, 3, 99]) for r in reqs if rng.random() < 0.4}
+        # `get "X"` after an abandoned colour command to X reads a colour that differs from the fault-free run, and
+        # what the script then sends to healthy lights legitimately differs too: such a get is left out
+        lost = {(d, e) for (d, k, e), f in plan.items() if k == 'set_color' and f >= 3}
+        stmts = [s for e, s in enumerate(stmts) if not (s.startswith('get "') and any(d == s[5:-1] and e0 <= e for d, e0 in lost))]
+        reqs2 = [(d, k, e + 1) for e, s in enumerate(stmts) for d, k in STATEMENTS[s]]
+        if len(reqs2) != len(reqs):
+            continue                     # (epochs shifted: the plan no longer fits; another sample takes its place)
         cases.append((stmts, plan))
     return cases
 
